@@ -219,11 +219,11 @@ def check_order(ctx, fn, merged_call):
 
 def _presorted(fn, mstmt):
     """all four arrays permuted by one argsort before the merge"""
-    perm = [s for s in fn.body if isinstance(s, ast.Assign) and isinstance(s.value, ast.Call) and A.last_attr(s.value) == "argsort" and s.lineno < mstmt.lineno]
+    perm = [s for s in fn.body if isinstance(s, ast.Assign) and isinstance(s.value, ast.Call) and A.last_attr(s.value) == "argsort" and A.doc_index(s) < A.doc_index(mstmt)]
     if not perm:
         return False
     p = canon(perm[0].targets[0])
-    done = {canon(s.targets[0]) for s in fn.body if isinstance(s, ast.Assign) and isinstance(s.value, ast.Subscript) and canon(s.value.slice) == p and canon(s.value.value) == canon(s.targets[0]) and s.lineno < mstmt.lineno}
+    done = {canon(s.targets[0]) for s in fn.body if isinstance(s, ast.Assign) and isinstance(s.value, ast.Subscript) and canon(s.value.slice) == p and canon(s.value.value) == canon(s.targets[0]) and A.doc_index(s) < A.doc_index(mstmt)}
     return set(ACC) <= done
 
 
